@@ -58,7 +58,9 @@ class Prop(PropBase):
         def scn_of(name):
             i = text.find(f'S {name}\n'); j = text.find('\nE', i)
             return text[i:j + 2]
-        if bname == 'trace':
+        if bname == 'trace' or (bname == 'replay' and re.search(r'^Q( \S+){6} 1$', text, re.M)):
+            if not hasattr(self, 'meta'):
+                self.meta = {}
             ver = impl_path[:-5] + '.qv'
             rc, out, dt = self.C.run_qv(impl_path, ver)
             if rc != 0:
@@ -96,7 +98,7 @@ class Prop(PropBase):
                     violations.append(('trace-mismatch', f'{name}: the real run is not a behaviour of the model: ' + ' '.join(t[3:]), scn_of(name)))
                 else:
                     violations.append(('crash', f'{name}: ' + ' '.join(t[2:]) + ' :: ' + impl_log[-600:], scn_of(name)))
-            for name in self.meta:
+            for name in (self.meta if bname == 'trace' else []):
                 if name not in seen:
                     violations.append(('crash', f'{name}: the run produced no trace (crash or hang) :: ' + impl_log[-600:], scn_of(name)))
         else:
